@@ -42,6 +42,21 @@ CLAIMED = {
              'Correspondence: instrumented middleware/handler stacks, every request kind, batches compared element-wise.',
         note=DISP_NOTE, technique='Coq proof (induction over the middleware stack / handler list) + correspondence by vm_compute',
         design='6 C12'),
+    'C04': dict(
+        text='Theorem (Coq, closed): on every signature of positional-or-keyword / keyword-only parameters of ANY length, for every '
+             'context mode and every positional list or mapping, pjrpc\'s path (Signature.bind on the context-free signature + '
+             'functools.partial with keywords + context) runs the body with exactly the environment CPython\'s own call binding '
+             'produces and answers "invalid params" without running it exactly when a direct call cannot bind; the context parameter '
+             'always holds the server-side context and cannot be named or positionally reached by the client. The full statement over '
+             'variadic / positional-only signatures is proved FALSE of the faithful model (C04_bind_agrees_refuted = known finding F5). '
+             'Correspondence: the call-binding model against the real interpreter, and dispatch of every input to generated methods '
+             '(function / coroutine / view, context by name / positional / view constructor, truthy and falsy contexts, twin '
+             'registrations of one function).',
+        note='trusted: Coq kernel + vm_compute; Model/Bind.v transcribes CPython call binding and inspect.Signature.bind (both validated '
+             'on every run against the interpreter / the library on the enumerated inputs only); known finding F5 suppresses exactly the '
+             'failures whose signature has a variadic or positional-only parameter.',
+        technique='Coq proof (induction over signatures and argument lists: Signature.bind + partial(**kw) = direct call) + correspondence by vm_compute',
+        design='6 C04'),
     'C05': dict(
         text='Theorems about the Gallina model of to_json/from_json for requests, responses, errors and batches of ANY length and '
              'payload: from_json(to_json m) returns m up to the normalisation the wire form forces (the spellings of "no parameters"; '
